@@ -287,17 +287,48 @@ def runHs (ws : List String) : String :=
         let covered := match host with
           | some h => Usual.C08.checkName (Usual.C08.ipLit strict) sc.names h == .ok
           | none => false
-        -- the two configs are produced by the same setter calls as in the harness (do_hs)
-        let cfgC := runSetters ([.protocols (UInt32.ofNat cp)] ++ (if vc == 0 then [.noVerifyCert] else []) ++
+        -- the configs are produced by the same setter calls as in the harness (build_cfgs); the CA set a
+        -- config trusts is encoded as its one-byte `ca_file`
+        let mkC (cp vc vn vt ca : Nat) := runSetters ([.protocols (UInt32.ofNat cp), .caFile (some [UInt8.ofNat ca])] ++
+          (if vc == 0 then [.noVerifyCert] else []) ++
           (if vn == 0 then [.noVerifyName] else []) ++ (if vt == 0 then [.noVerifyTime] else [])) (Config.new [])
-        let cfgS := runSetters ([.protocols (UInt32.ofNat sp)] ++ (if svt == 0 then [.noVerifyTime] else []) ++
+        let mkS (sp svt svc ca : Nat) := runSetters ([.protocols (UInt32.ofNat sp), .caFile (some [UInt8.ofNat ca])] ++
+          (if svt == 0 then [.noVerifyTime] else []) ++
           (if svc == 1 then [.verifyClient] else if svc == 2 then [.verifyClientOptional] else [])) (Config.new [])
-        let p := Policy.ofConfigs cfgC cfgS host.isSome
-          ⟨sc.ca == cca && sc.ca != 0 && sc.server, sc.timeValid⟩ covered
-          (cc.map fun c => ⟨c.ca == sca && c.ca != 0 && !c.server, c.timeValid⟩)
+        let cfgC := mkC cp vc vn vt cca
+        let cfgS := mkS sp svt svc sca
+        -- reconfigure family: first configuration A (defaults as in the harness), then the one above
+        let o (k : String) (lo hi d : Nat) : Option Nat := match kvGet kv k with
+          | none => some d
+          | some _ => natIn kv k lo hi
+        let oi (k : String) : Bool := match kvGet kv k with        -- depth / adepth: -1..100, ignored by the decision
+          | none => true
+          | some v => match v.toInt? with
+            | some i => decide (-1 ≤ i) && decide (i ≤ 100)
+            | none => false
+        match o "rc" 0 2 0, o "acp" 0 30 24, o "asp" 0 30 24, o "avc" 0 1 1, o "avn" 0 1 1, o "avt" 0 1 1,
+              o "asvc" 0 2 0, o "asvt" 0 1 1, o "acca" 1 2 1, o "asca" 1 2 1, o "aciph" 0 2 0, o "akp" 0 1 0 with
+        | some rc, some acp, some asp, some avc, some avn, some avt, some asvc, some asvt, some acca, some asca,
+          some _, some _ =>
+        if acp % 2 == 1 || asp % 2 == 1 || !oi "depth" || !oi "adepth" then "bad-op" else
+        let tc0 := TlsCtx.new false []
+        let ts0 := TlsCtx.new true []
+        let tc := if rc == 0 then tc0 else if rc == 1 then tc0.configure (mkC acp avc avn avt acca)
+                  else ((tc0.configure (mkC acp avc avn avt acca)).connect).reset
+        let ts := if rc == 0 then ts0 else if rc == 1 then ts0.configure (mkS asp asvt asvc asca)
+                  else (ts0.configure (mkS asp asvt asvc asca)).reset
+        let tc := (tc.configure cfgC).connect
+        let ts := ts.configure cfgS
+        let trusts (x : Option SslCtx) (ca : Nat) : Bool := match x with
+          | some k => k.caFile == some [UInt8.ofNat ca] && ca != 0
+          | none => false
+        (match Policy.ofCtxs tc ts host.isSome ⟨trusts tc.sslCtx sc.ca && sc.server, sc.timeValid⟩ covered
+                (cc.map fun c => ⟨trusts ts.sslCtx c.ca && !c.server, c.timeValid⟩),
+              tc.sslCtx, ts.sslCtx with
+        | some p, some cctx, some sctx =>
         let pb := verBits perm
-        let cb := verBits cfgC.protocols.toNat
-        let sb := verBits cfgS.protocols.toNat
+        let cb := verBits cctx.protocols.toNat
+        let sb := verBits sctx.protocols.toNat
         if established p pb cb sb then
           let ver := match negotiated pb cb sb with
             | some v => verName v | none => "?"
@@ -308,6 +339,8 @@ def runHs (ws : List String) : String :=
           s!"est=1 ver={ver} rvs=ok want=ok data=ok h={hex16 h1},{hex16 h2} {tail} after=ok"
         -- refused: every later I/O call on the refused context fails again, nothing crosses (`refused_stays_refused`)
         else "est=0 ver=- rvs=ok want=ok data=- h=-,- eof=- close=-,- cut=- after=ok"
+        | _, _, _ => "bad-op")
+        | _, _, _, _, _, _, _, _, _, _, _, _ => "bad-op"
       | _, _, _, _ => "bad-op"
     | _, _, _, _, _, _, _, _, _, _, _ => "bad-op"
   | _, _, _, _, _, _, _, _, _, _, _ => "bad-op"
